@@ -33,6 +33,10 @@ import (
 //	lists     every list function, C02's update generator; paths remote-api (persisting and not), reply/notify
 //	          datagrams, local-api, remote writes from a bound peer (failing: unknown identifiers, unchangeable
 //	          elements), plus a function without partial support (partial / non-persisting update must fail)
+//	          Delete filters whose ELEMENTS name sub elements of a struct-typed element ({value:{number:{}}},
+//	          {timePeriod:{endTime:{}}}; rig.Update.NestedElem, set by this check only) are part of the histories:
+//	          a stack that serves them through the item's pointer writes into a nested struct that the list
+//	          clone of an update shares with the store and with every value handed out earlier.
 //	usecases  the four use-case mutators on two local entities + use-case replies of a peer
 //	race      (-race binary) reader goroutines json.Marshal the retained values in a loop while the writer
 //	          applies the history: a report between a reader and spine-go/model is a C11 violation
@@ -52,7 +56,7 @@ func init() {
 	rig.Register(&rig.Check{
 		ID:    "C11",
 		Floor: 150,
-		Rule: "lists: case = (list function, block): histories of 6-10 updates drawn with C02's generator (all eight shapes, identifier domain 4) through one of the paths remote-api (each update first tried with persist=false), " +
+		Rule: "lists: case = (list function, block): histories of 6-10 updates drawn with C02's generator (all eight shapes, identifier domain 4; where the elements type of the list has struct-typed members, every second delete filter that names elements names SUB elements of one of them instead, shapes delete-elem-sub and delete-sel-elem-sub, whose effect on the data is not judged) through one of the paths remote-api (each update first tried with persist=false), " +
 			"reply/notify datagrams, local-api, remote write datagrams of a bound peer mixed with local updates; every DataCopy result (before and after each update), every data-change event payload and every value returned by UpdateData is retained with its fingerprint " +
 			"and re-fingerprinted after every later update, at the end of the history and of the case; a third of the histories is BLIND (the monitor retains only event payloads, response-callback Data and values returned by UpdateData, starts from a full data set delivered through the path under test, " +
 			"prefers in-place shapes right after a full update and reads the store for the first time at the end of the history; store clauses are not judged there); each case also drives one function without partial support through failing partial and non-persisting updates. " +
@@ -243,6 +247,31 @@ func c11Finish(c *rig.Ctx, k *c11Keeper, st *c11Stats, what string) {
 		"blind_histories": st.blind, "blind_values_retained": k.blindKept, "one_blind_history": st.blindSample})
 }
 
+// c11Nest turns, every second time, the delete filter of an update that names elements into one that names
+// SUB elements of a struct-typed element ({value:{number:{}}}, {timePeriod:{endTime:{}}}): rig.Update.NestedElem,
+// used by this check only. What such a filter removes is not judged anywhere (the reference fold of C02 knows
+// nothing about it); C11's oracles do not need to know: whatever the update does, values handed out earlier stay
+// as they were, and the store survives the update if it was not persisted or reported failure.
+func c11Nest(c *rig.Ctx, li *rig.ListInfo, u *rig.Update) {
+	if len(u.DelElem) == 0 {
+		return
+	}
+	nest := li.NestableElems()
+	if len(nest) == 0 || c.Rand.Intn(2) == 0 {
+		return
+	}
+	v := *u
+	v.DelElem = []int{nest[c.Rand.Intn(len(nest))]}
+	v.NestedElem = 1 + c.Rand.Intn(12)
+	v.Kind = u.Kind + "-sub" // delete-elem-sub, delete-sel-elem-sub: a shape of its own in signatures and case shapes
+	if _, _, ok := li.Filters(v); !ok {
+		return
+	}
+	*u = v
+	c.Count("delete_filters_naming_sub_elements", 1)
+	c.Seen("functions_with_sub_element_deletes", string(li.Fn))
+}
+
 // c11RunLists runs the list histories of one case (also used by the race part).
 func c11RunLists(c *rig.Ctx, lw *listWorld, k *c11Keeper, histories int) (st c11Stats) {
 	li, r := lw.li, c.Rand
@@ -315,6 +344,7 @@ func c11RunLists(c *rig.Ctx, lw *listWorld, k *c11Keeper, histories int) (st c11
 			if !ok {
 				continue
 			}
+			c11Nest(c, li, &u)
 			st.shapeSeq = append(st.shapeSeq, ("," + u.Kind)...)
 			fp, fd, _ := li.Filters(u)
 			mk := func() any { return li.MkList(rig.CloneItems(u.Items)) }
@@ -605,6 +635,7 @@ func c11BlindHistory(c *rig.Ctx, lw *listWorld, k *c11Keeper, st *c11Stats, path
 				u.DelSel = present[r.Intn(len(present))]
 			}
 		}
+		c11Nest(c, li, &u)
 		st.shapeSeq = append(st.shapeSeq, ("," + u.Kind)...)
 		failed := deliver(u, fmt.Sprintf("step %d", s))
 		if !failed {
